@@ -521,10 +521,13 @@ TRIAGE[("C13", "R2", "qkeras/qlayers.py::Clip",
     "replayed": "same call as for `constraint`"}
 TRIAGE[("C13", "R2", "qkeras/qlayers.py::QAdaptiveActivation",
         "option-not-serialised:relu_upper_bound")] = {
+    "status": "fixed", "commit": "775293a",
     "what_fails": "QAdaptiveActivation.get_config() has no relu_upper_bound "
                   "key although the constructor stores and uses it",
-    "replayed": "by reading QAdaptiveActivation.get_config (the layer cannot "
-                "be built under the pinned Keras 3)"}
+    "replayed": "QAdaptiveActivation('quantized_relu', 6, relu_upper_bound="
+                "1.5) -> from_config(get_config()): relu_upper_bound None, "
+                "the quantizer's bound None (found again by the interpreted "
+                "round trip C13 R5 once the layer was added to it)"}
 TRIAGE[("C13", "R2", "qkeras/qnormalization.py::QBatchNormalization",
         "option-not-serialised:activation")] = {
     "what_fails": "QBatchNormalization.__init__ accepts `activation` but "
